@@ -3,7 +3,6 @@
 package merge
 
 import (
-	"container/heap"
 	"context"
 
 	"github.com/brimdata/super"
@@ -49,7 +48,7 @@ func vC06Parent(ctx context.Context, name string, shape []int, nextID *int, up *
 	p := &puller{ctx: ctx, resultCh: make(chan op.Result, len(shape)+2), doneCh: make(chan struct{})}
 	var last int64
 	first := true
-	for bi, n := range shape {
+	for _, n := range shape {
 		vals := make([]zed.Value, n)
 		for i := range vals {
 			k := int64(verif.Uint8(name+".key") & 7)
@@ -66,7 +65,6 @@ func vC06Parent(ctx context.Context, name string, shape []int, nextID *int, up *
 		if n == 0 {
 			up.hasEmpty = true
 		}
-		_ = bi
 		p.resultCh <- op.Result{Batch: zbuf.NewArray(vals)}
 	}
 	p.resultCh <- op.Result{}
@@ -89,8 +87,7 @@ func vC06Merge(shapeIdx []int, nreads int) {
 	func() {
 		defer func() {
 			if crashed {
-				r := recover()
-				_ = r
+				recover()
 			}
 		}()
 		// Op.run minus the goroutine spawn: the upstream results are already queued
@@ -144,8 +141,6 @@ func vC06Merge(shapeIdx []int, nreads int) {
 	verif.Observe("n", len(outs))
 	verif.Reach("end")
 }
-
-var _ = heap.Init
 
 // verif:desc C06-O4 merge.Op (start/Pull/Read/Less and the container/heap calls) over two sorted upstreams whose results are already queued in the pullers' channels: after 0..2 value-at-a-time Reads, pulling until EOS yields every input value exactly once, in non-decreasing key order, without error or panic.  A parent batch partially consumed by Read is then returned as a trimmed batch by Pull; the slow path of Pull drains through zbuf.NewPuller(o).
 // verif:bounds 2 parents; upstream batch sequences {[1],[2],[1,1],[2,1],[]} x {[1],[2],[1,1],[2,1],[],[0,1],[1,0]} (sizes; 0 = empty non-nil batch); keys symbolic in 0..7 (ties possible), each upstream sorted; 0..2 Reads first; real comparator NewCompareFn(nullsMax=true) on the key
